@@ -48,7 +48,7 @@ class C20(Check):
                    'delivered; all others are judged exactly',
                    'rotation: files of the handler are <rootname>-YYYY-MM-DD.log; entries with other names are foreign '
                    'and must survive']
-    PROBES = ('c20.routing-mode', 'c20.rotation-mode', 'c20.record-delivered', 'c20.record-filtered', 'c20.idn-reset',
+    PROBES = ('c20.routing-mode', 'c20.event-subscription-changed', 'c20.rotation-mode', 'c20.record-delivered', 'c20.record-filtered', 'c20.idn-reset',
               'c20.invalid-level', 'c20.rollover', 'fs.error', 'clock.jump', 'c20.foreign-symlink')
 
     def gen_case(self, rng, tier):
@@ -64,8 +64,12 @@ class C20(Check):
             shape['hidden'] = rng.choice([None, None, 'm0', 'm1'])
             for c in range(nconn):
                 for _ in range(rng.randrange(1, 7)):
-                    kind = rng.choice(['logging', 'logging', 'logging', 'logging', 'idn', 'ping', 'close'])
+                    kind = rng.choice(['logging', 'logging', 'logging', 'logging', 'idn', 'ping', 'close',
+                                       'activate', 'deactivate'])
                     op = {'c': c, 'kind': kind, 'dt': rng.choice([0, 0, 0.01, 0.2, 1.0])}
+                    if kind in ('activate', 'deactivate'):
+                        # subscriptions to updates are another matter: they leave the log levels alone
+                        op['spec'] = rng.choice([None, None, 'm0'])
                     if kind == 'logging':
                         op['mod'] = rng.choice(['m0', 'm1', '.', '.', None, 'nomod'])
                         op['level'] = rng.choice(['debug', 'comlog', 'info', 'warning', 'error', 'off', 'off',
@@ -182,6 +186,9 @@ class C20(Check):
                     text = f'logging {spec} {json.dumps(op["level"])}' if op['level'] is not None else f'logging {spec}'
                 elif kind == 'idn':
                     text = '*IDN?'
+                elif kind in ('activate', 'deactivate'):
+                    text = kind + (f' {op["spec"]}' if op.get('spec') else '')
+                    sim.count('c20.event-subscription-changed')
                 else:
                     text = 'ping p'
                 r = cl.request(text, timeout=60)
